@@ -15,6 +15,7 @@ package c31
 import (
 	"bytes"
 	"context"
+	"errors"
 	"fmt"
 	"hash/fnv"
 	"math/rand"
@@ -398,6 +399,18 @@ func body(s *simrt.Sim, tier string) {
 	w := &world{s: s, lastOps: -1, dups: s.Tape.Variant%3 == 1}
 	curWorld = w
 	w.hn = simhttp.Install(s)
+	if (s.Tape.Variant/3)%2 == 1 {
+		// the task database is busy now and then: inserting a write-back task
+		// fails (the upload is then answered 500 and not acknowledged)
+		pm := []int{100, 300, 600}[(s.Tape.Variant/6)%3]
+		s.Disk().SQLFaultFn = func(n *simrt.Node, stmt string) error {
+			if !w.stop && strings.HasPrefix(stmt, "INSERT writeback_task") && s.Tape.Chance(pm) {
+				s.Fault("sql_insert_error")
+				return errors.New("database is locked")
+			}
+			return nil
+		}
+	}
 	tmp := kit.TempDir(s)
 	w.be = oc.StartBackend(s, w.hn, backendAddr)
 	w.dir = filepath.Join(tmp, "origin1")
